@@ -82,6 +82,30 @@ theorem C17_cex_clone_table_corrupt (src : List SrcEntry) (failAt : Nat) :
     (r.1.corrupt = false → TableCloneOk src.length r) :=
   ⟨fun h => ((cloneTable_summary false failAt src).1 h).2, (cloneTable_summary false failAt src).2⟩
 
+/-- cif_value_deserialize of the blob of a TABLE value (cif_table_deserialize as repaired by /repo 7285a53: HASH_ADD_UNDO
+    before the entry is released, and 2b403f6: CIF_MEMORY_ERROR), any number of entries with any keys (uthash's table,
+    bucket-array and expansion requests included), entry values unknown/na, text, numbers, lists of such: no double /
+    invalid free; on failure nothing stays live; on success exactly uthash's table and bucket array and the entries (entry
+    block with its value, key, original key) are live and there is one entry per serialised entry; CIF_OK exactly when no
+    request failed. -/
+theorem C17_deserialize_table_balanced (entries : List BlobEntry) (failAt : Nat) :
+    let r := deserTable failAt entries
+    Balanced r.2.2.evs (match r.2.1 with | some m => m.ids | none => []) ∧
+    (r.1 = OK ∨ r.1 = MEMORY_ERROR) ∧ (r.1 = OK ↔ r.2.1.isSome) ∧ (r.1 = OK ↔ NoFail r.2.2.evs) ∧
+    (∀ m, r.2.1 = some m → m.entries.length = entries.length) :=
+  deserTable_summary failAt entries
+
+/-- cif_loop_get_names_internal WITH normalisation (the variant cif_loop_get_packets uses; ASCII names, so that
+    cif_normalize makes three requests per name), as repaired by /repo c161ded: every number of names, every fault position:
+    no double / invalid free; on failure — in the rows, at the array, or in any of the 3n normalisation requests — nothing
+    stays live (list nodes, stored strings, the names normalised so far and the array are all released); on success exactly
+    the array and the n normalised names; CIF_OK exactly when no request failed. -/
+theorem C17_get_names_norm_balanced (n failAt : Nat) :
+    let (rc, owned, st) := getNamesNorm failAt n
+    Balanced st.evs owned ∧ (rc = OK ∨ rc = MEMORY_ERROR ∨ (n = 0 ∧ rc = INVALID_HANDLE)) ∧ (rc ≠ OK → owned = []) ∧
+    (0 < n → (rc = OK ↔ NoFail st.evs)) ∧ (rc = OK → owned.length = n + 1) :=
+  namesNorm_summary failAt n
+
 /-- the fault position is reached iff it is one of the requests of the fault-free run (numbered on from `s.count`), and
     then it is the only failed request and the last request of the call — for cif_map_set_item (both variants) and the
     removal -/
@@ -100,8 +124,28 @@ theorem C17_map_fault_reached_iff (failAt : Nat) (kind : MapKind) (m : MapSt) (s
    fun keyNorm keep => fault_of_outcomes_from (mapRemove_outcome 0 kind m keyNorm keep s rest hb hc)
       (mapRemove_outcome failAt kind m keyNorm keep s rest hb hc)⟩
 
+/-- re-entry after a faulted call: any sequence of cif_map_set_item / removal calls on the same map, EACH with its own
+    fault position (so: arbitrarily many faults, one per call), started in a state satisfying the hypotheses of
+    C17_map_set_balanced, ends in a state that satisfies them again — for the resulting map, with what the removals handed
+    to the caller — and the whole event sequence is balanced.  Hence every single call of the sequence, whatever happened
+    before it, satisfies C17_map_set_balanced / C17_map_remove_balanced.  (Two faults inside ONE call are not modelled.) -/
+theorem C17_ladder_reentry (kind : MapKind) (ops : List MapOp) (m : MapSt) (s : St) (rest : List Nat)
+    (hb : Balanced s.evs (m.ids ++ rest)) (hc : ∀ i ∈ m.ids ++ rest, i ≤ s.count) :
+    let r := runMapOps kind ops m s []
+    Balanced r.2.1.evs (r.1.ids ++ (r.2.2 ++ rest)) ∧ ∀ i ∈ r.1.ids ++ (r.2.2 ++ rest), i ≤ r.2.1.count :=
+  runMapOps_inv kind ops m s [] rest ⟨hb, hc⟩
+
 -- ---------------------------------------------------------------------------------------------------------------
 -- non-vacuity
+
+/-- three calls on an empty table, two of them faulted: set "a" with the fault at uthash's bucket array (request 7: fails,
+    table stays empty), set "a" again without a fault (7 more requests), remove "a" with the normaliser's request failing
+    (request 7 + 7 + 1): the table still holds "a", nothing else is live -/
+example :
+    let r := runMapOps .table [.set 7 [97] [97] (some .chr), .set 0 [97] [97] (some .chr), .remove 15 [97] false] {} {} []
+    r.1.entries.length = 1 ∧ r.2.1.count = 15 ∧ failIds r.2.1.evs = [7, 15] ∧
+    (final r.2.1.evs).map (fun l => l.length) = some 6 ∧ r.1.ids.length = 6 := by decide +kernel
+
 
 /-- setting the key "a" (HASH_JEN 2652129802) with a character value in an EMPTY table: 8 requests (normalised key 1,
     entry 2, key copy 3, scratch object 4, its text 5, then uthash's table 6 and bucket array 7 — the scratch object is
@@ -152,6 +196,18 @@ example :
     (cloneTable true 8 src).2.2.evs = [.alloc 1, .alloc 2, .alloc 3, .alloc 4, .alloc 5, .alloc 6, .free 5, .alloc 7,
       .fail 8, .free 7, .free 6, .free 4, .free 3, .free 2, .free 1] ∧
     final (cloneTable true 8 src).2.2.evs = some [] := by decide +kernel
+
+/-- the blob of { "a": 'x' } (6 requests: key 1, key_orig 2, entry 3, text 4, uthash's table 5 and bucket array 6); request 6
+    fails: HASH_ADD_UNDO releases the table header 5, then text 4 and entry 3, key_orig 2, key 1: nothing stays live.
+    Names with normalisation, 2 names (11 requests), request 9 (second buffer of the second name) fails: everything released. -/
+example :
+    (deserTable 0 [{ keyStr := [97], shape := .chr }]).2.2.count = 6 ∧
+    (deserTable 6 [{ keyStr := [97], shape := .chr }]).1 = MEMORY_ERROR ∧
+    (deserTable 6 [{ keyStr := [97], shape := .chr }]).2.2.evs =
+      [.alloc 1, .alloc 2, .alloc 3, .alloc 4, .alloc 5, .fail 6, .free 5, .free 4, .free 3, .free 2, .free 1] ∧
+    (getNamesNorm 0 2).2.2.count = 11 ∧ (getNamesNorm 0 2).2.1.length = 3 ∧
+    (getNamesNorm 9 2).1 = MEMORY_ERROR ∧ final (getNamesNorm 9 2).2.2.evs = some [] ∧
+    (freeIds (getNamesNorm 9 2).2.2.evs).length = 8 := by decide +kernel
 
 /-- uthash's HASH_JEN as transcribed (constants and shifts from Gen/Uthash.lean): the hash of the UTF-16 key "a" -/
 example : hashJen (keyBytes [97]) = 2652129802 := by decide +kernel
